@@ -205,8 +205,10 @@ impl Ctx {
         self.counters.add("steps", n);
     }
     pub fn fresh_path(&mut self, stem: &str) -> PathBuf {
+        // the same path is rewritten several times in a row (a user refreshing one data folder / one file), then
+        // another one is used
         self.seq += 1;
-        self.scratch.join(format!("{stem}{}", self.seq % 4))
+        self.scratch.join(format!("{stem}{}", (self.seq / 6) % 3))
     }
     pub fn cleanup(&self) {
         let _ = std::fs::remove_dir_all(&self.scratch);
